@@ -408,7 +408,7 @@ pub fn prop() -> Prop<RtCase> {
         rule: "Cases: 1-6 frames the connection can write (simple strings/errors of arbitrary UTF-8 without CR/LF, i64 uniform plus MIN/MAX/0/-1/powers of ten, bulk strings of arbitrary bytes 0-20 KiB quick / 200 KiB thorough with CRLF at start/end/inside, null, flat arrays of those), a segmentation of the concatenated encoding (all at once / one byte at a time / generated cut points / cuts at and adjacent to every CRLF) and optionally a stream end strictly inside the last frame. Connection runs over an in-memory AsyncRead/AsyncWrite stream that delivers exactly those segments. Oracles: write_frame's bytes, written into a bounded pipe of generated capacity (16 B - 9 KB, so that writes are accepted only in part, or unbounded) while a reader drains it, equal a reference encoder's (differential); read_frame yields exactly the frame sequence and then Ok(None); a stream that ends inside a frame yields an error, not Ok(None) nor a frame; EVERY strict prefix of each frame's encoding (all up to 4 KiB, boundary-dense sample beyond) makes Frame::check answer Incomplete. Non-trivial: at least 2 frames and at least one segment boundary strictly inside a frame; distinct = distinct hash of the case.",
         assumptions: &["nested arrays are excluded: Connection::write_frame is unimplemented!() for them (not a frame the connection can write)"],
         needs_shim: false,
-        budget: |t| t.pick(160000, 1500000),
+        budget: |t| t.pick(800000, 3000000),
         shards: |_| 16,
         strategy,
         exec,
